@@ -13,7 +13,7 @@ for a in rest:
         tier = a
     else:
         props.append(a)
-SCR = f"/tmp/vxseed_{seed}"
+SCR = f"/tmp/vxseed_{seed}_{os.getpid()}"
 shutil.rmtree(SCR, ignore_errors=True)
 os.makedirs(SCR)
 subprocess.run(["rsync", "-a", "--exclude", "target", "--exclude", ".git", "/repo/", SCR + "/repo/"], check=True)
